@@ -5,7 +5,7 @@ import ast
 
 from ..cfg import guards_of, parent_map
 from ..dataflow import assignments, expanded_text
-from ..src import AnalysisError, loc, norm, own_nodes
+from ..src import AnalysisError, loc, norm, own_nodes, rename_id
 
 POLY = "tdgl.device.polygon"
 DEV = "tdgl.device.device"
@@ -50,13 +50,25 @@ def check(ctx):
         ctx.ob("R18.1", f"Polygon.from_{m} -> polygon.{m}(*rest)", rets == [f"polygon.{m}(*rest)"], detail=rets, where=fc.fq,
                construct=f"from_{m}", loc=loc(fc, fc.node), message=f"from_{m} returns {rets}", consequence="constructor applies another operation")
     fj = P.methods["_join_via"]
-    vo = [n.value for n in own_nodes(fj.node) if isinstance(n, ast.Assign) and norm(n.targets[0]) == "valid_operations"]
-    names = sorted(e.value for e in vo[0].elts) if vo and isinstance(vo[0], ast.Tuple) else None
-    disp = [norm(n) for n in ast.walk(fj.node) if isinstance(n, ast.Call) and isinstance(n.func, ast.Call) and norm(n.func.func) == "getattr"]
-    ok = names == ["difference", "intersection", "union"] and disp == ["getattr(self.polygon, operation)(other_poly)"]
+    # the operation whitelist: the tuple of strings tested with `operation not in <name>`
+    tests = [n for n in own_nodes(fj.node) if isinstance(n, ast.Compare) and isinstance(n.ops[0], ast.NotIn) and norm(n.left) == "operation"]
+    names = None
+    if len(tests) == 1:
+        wl = expanded_text(fj.node, tests[0].comparators[0])
+        try:
+            names = sorted(ast.literal_eval(wl))
+        except Exception:
+            names = None
+    disp = [n for n in ast.walk(fj.node) if isinstance(n, ast.Call) and isinstance(n.func, ast.Call) and norm(n.func.func) == "getattr"]
+    ok = names == ["difference", "intersection", "union"] and len(disp) == 1 and norm(disp[0].func) == "getattr(self.polygon, operation)" \
+        and len(disp[0].args) == 1 and isinstance(disp[0].args[0], ast.Name)
+    if ok:
+        other = disp[0].args[0].id
+        defs = [norm(v) for _, v in assignments(fj.node).get(other, []) if v is not None]
+        ok = sorted(defs) == sorted(["other.polygon", "geo.polygon.Polygon(other)"])
     ctx.ob("R18.1", "_join_via: operation in {union, intersection, difference}, dispatched on self.polygon with the other polygon", ok,
-           detail={"valid": names, "dispatch": disp}, where=fj.fq, construct="_join_via dispatch", loc=loc(fj, fj.node),
-           message=f"_join_via dispatch {disp} over {names}", consequence="operands are swapped (difference is not symmetric) or the wrong shapely method runs")
+           detail={"valid": names, "dispatch": [norm(d) for d in disp]}, where=fj.fq, construct="_join_via dispatch", loc=loc(fj, fj.node),
+           message=f"_join_via dispatch {[norm(d) for d in disp]} over {names}", consequence="operands are swapped (difference is not symmetric) or the wrong shapely method runs")
 
     # R18.2
     for cls, m in ((P, "rotate"), (P, "translate"), (P, "scale"), (D, "translate")):
@@ -92,11 +104,30 @@ def check(ctx):
     ctx.ob("R18.3", "Polygon.copy copies the vertex array", ok, detail=[norm(p) for p in pc], where=fc.fq, construct="Polygon.copy",
            loc=loc(fc, fc.node), message="Polygon.copy shares the vertex array", consequence="mutating the copy's vertices changes the original")
     fd = D.methods["copy"]
-    src = norm(fd.node)
-    need = ["[hole.copy() for hole in self.holes]", "[term.copy() for term in self.terminals]", "self.probe_points.copy()",
-            "layer=self.layer.copy()", "film=self.film.copy()"]
-    missing = [w for w in need if w not in src]
-    ctx.ob("R18.3", "Device.copy copies layer, film, every hole, every terminal and the probe points", not missing, detail=missing,
+    dc = [n for n in ast.walk(fd.node) if isinstance(n, ast.Call) and norm(n.func) == "Device"]
+    kw = {k.arg: expanded_text(fd.node, k.value) for k in dc[0].keywords} if len(dc) == 1 else {}
+
+    def is_copy_comp(txt, coll):
+        try:
+            e = ast.parse(txt, mode="eval").body
+        except SyntaxError:
+            return False
+        return isinstance(e, ast.ListComp) and len(e.generators) == 1 and norm(e.generators[0].iter) == coll and \
+            isinstance(e.elt, ast.Call) and isinstance(e.elt.func, ast.Attribute) and e.elt.func.attr == "copy" and \
+            norm(e.elt.func.value) == norm(e.generators[0].target)
+    pp_defs = [norm(v) for _, v in assignments(fd.node).get(norm(dc[0].keywords[[k.arg for k in dc[0].keywords].index("probe_points")].value) if dc and "probe_points" in [k.arg for k in dc[0].keywords] else "?", []) if v is not None]
+    missing = []
+    if kw.get("layer") != "self.layer.copy()":
+        missing.append("layer")
+    if kw.get("film") != "self.film.copy()":
+        missing.append("film")
+    if not is_copy_comp(kw.get("holes", ""), "self.holes"):
+        missing.append("holes")
+    if not is_copy_comp(kw.get("terminals", ""), "self.terminals"):
+        missing.append("terminals")
+    if sorted(pp_defs) != ["None", "self.probe_points.copy()"] and kw.get("probe_points") != "self.probe_points.copy()":
+        missing.append("probe_points")
+    ctx.ob("R18.3", "Device.copy copies layer, film, every hole, every terminal and the probe points", not missing, detail={"kwargs": kw, "shared": missing},
            where=fd.fq, construct="Device.copy", loc=loc(fd, fd.node), message=f"Device.copy shares {missing}",
            consequence="Device.scale/rotate/translate(inplace=False) move the original's polygons")
     # R18.4
@@ -128,12 +159,18 @@ def check(ctx):
            message=f"in-place vertex mutation at {muts}", consequence="orientation/closure invariants are bypassed")
     # R18.5
     f = D.methods["contains_points"]
-    m = [n.value for n in own_nodes(f.node) if isinstance(n, ast.Assign) and norm(n.targets[0]) == "mask"]
+    m = [n for n in own_nodes(f.node) if isinstance(n, ast.BinOp) and isinstance(n.op, (ast.BitAnd, ast.BitOr))]
     ok = False
-    if len(m) == 1 and isinstance(m[0], ast.BinOp) and isinstance(m[0].op, ast.BitAnd):
+    if len(m) == 1 and isinstance(m[0].op, ast.BitAnd):
         l, r = m[0].left, m[0].right
         ok = norm(l) == "self.film.contains_points(points, radius=radius)" and isinstance(r, ast.UnaryOp) and isinstance(r.op, ast.Invert) \
-            and norm(r.operand) == "np.logical_or.reduce([hole.contains_points(points, radius=-radius) for hole in self.holes])"
+            and isinstance(r.operand, ast.Call) and norm(r.operand.func) == "np.logical_or.reduce" and len(r.operand.args) == 1 \
+            and isinstance(r.operand.args[0], ast.ListComp)
+        if ok:
+            lc = r.operand.args[0]
+            v = norm(lc.generators[0].target)
+            ok = len(lc.generators) == 1 and not lc.generators[0].ifs and norm(lc.generators[0].iter) == "self.holes" \
+                and rename_id(norm(lc.elt), v, "H") == "H.contains_points(points, radius=-radius)"
     ctx.ob("R18.5", "mask == film.contains(points, +radius) & ~any(hole.contains(points, -radius))", ok, detail=[norm(x) for x in m],
            where=f.fq, construct="Device.contains_points", loc=loc(f, f.node), message=f"membership mask is {[norm(x) for x in m]}",
            consequence="points inside holes count as inside the device (or film points are excluded)")
